@@ -32,7 +32,7 @@ EXTRA = {
     "C13": T("TablesConst", ["tables_rel_tol"]),
     "C14": T("TablesResolve", EVENT_TABLES),
     "C15": T("TablesFacts", ["fact_rename_demes_copies_first"]),
-    "C18": T("TablesFacts", ["fact_fromdict_copies_first", "fact_builder_resolve_passes_data"]),
+    "C18": T("TablesFacts", ["fact_fromdict_copies_first", "fact_builder_resolve_passes_data", "fact_fromdict_copy_is_unaliased", "fact_deepcopy_unaliased_shape", "fact_builder_resolve_only_passes_data"]),
     "C19": T("TablesMs", ["tables_cli_parse_flags", "tables_cli_parse_tests"]),
 }
 # theorems of other properties that a property's level rests on
